@@ -48,26 +48,48 @@ fn one_shot_and_reuse(ctx: &Ctx) -> Stats {
                     }
                 }
             }
-            // reuse after finish: panic is documented; the destination must stay valid
+            // reuse after finish: the panic is documented; every safe destination must stay valid
+            // (and unchanged) whatever it and its spare capacity held before
             for fill in [1u8, 2, 3] {
                 let mut d = enc.new_decoder_without_bom_handling();
                 let mut tmp = vec![0u8; bytes.len() * 3 + 32];
                 let _ = fw::catch(|| d.decode_to_utf8(bytes, &mut tmp, true));
-                let mut s = filler_text(fill, bytes.len(), 24);
-                let r = fw::catch(|| d.decode_to_str(bytes, &mut s, true));
-                if r.is_ok() {
-                    st.class("reuse-after-finish-did-not-panic");
-                } else {
-                    st.class("reuse-after-finish-panicked-(documented)");
-                }
-                if std::str::from_utf8(s.as_bytes()).is_err() {
-                    bad = Some(format!("&mut str is invalid after reusing a finished decoder (panic caught): {}", fw::hex(s.as_bytes())));
-                }
-                let mut s2 = String::with_capacity(40);
-                s2.push_str("\u{E9}\u{4E2D}");
-                let _ = fw::catch(|| d.decode_to_string(bytes, &mut s2, true));
-                if std::str::from_utf8(s2.as_bytes()).is_err() {
-                    bad = Some(format!("String is invalid after reusing a finished decoder (panic caught): {}", fw::hex(s2.as_bytes())));
+                for raw in [false, true] {
+                    let mut s = filler_text(fill, bytes.len(), 24);
+                    let r = fw::catch(|| {
+                        if raw {
+                            let _ = d.decode_to_str_without_replacement(bytes, &mut s, true);
+                        } else {
+                            let _ = d.decode_to_str(bytes, &mut s, true);
+                        }
+                    });
+                    if r.is_ok() {
+                        st.class("reuse-after-finish-did-not-panic");
+                    } else {
+                        st.class("reuse-after-finish-panicked-(documented)");
+                    }
+                    if std::str::from_utf8(s.as_bytes()).is_err() {
+                        bad = Some(format!("&mut str is invalid after reusing a finished decoder with decode_to_str{} (panic caught): {}", if raw { "_without_replacement" } else { "" }, fw::hex(s.as_bytes())));
+                    }
+                    // a String whose spare capacity holds bytes that are not valid UTF-8
+                    let mut s2 = String::with_capacity(48);
+                    s2.push_str("\u{E9}\u{4E2D}");
+                    unsafe {
+                        let p = s2.as_mut_ptr().add(s2.len());
+                        for i in 0..(s2.capacity() - s2.len()) {
+                            p.add(i).write([0xFFu8, 0xAC, 0x82, 0xE2][(i + fill as usize) & 3]);
+                        }
+                    }
+                    let _ = fw::catch(|| {
+                        if raw {
+                            let _ = d.decode_to_string_without_replacement(bytes, &mut s2, true);
+                        } else {
+                            let _ = d.decode_to_string(bytes, &mut s2, true);
+                        }
+                    });
+                    if std::str::from_utf8(s2.as_bytes()).is_err() {
+                        bad = Some(format!("String is invalid after reusing a finished decoder with decode_to_string{} (panic caught): len {} bytes {}", if raw { "_without_replacement" } else { "" }, s2.len(), fw::hex(&s2.as_bytes()[..s2.len().min(24)])));
+                    }
                 }
             }
             match bad {
